@@ -26,10 +26,10 @@ theorem exec_goto (n : Nat) (s : St) (loc : Nat) (h : (loc : Int) ≤ curSize s)
 
 theorem exec_prepareCall_fixed (n : Nat) (s : St) (x : String) (nargs id f : Nat)
     (_hb : coreBuiltins.contains x = false) (hl : lexLookup s x = some (id, .fn f))
-    (hv : (fnOf s f).varargs = false) (ha : nargs = (fnOf s f).nargs) :
+    (hv : (fnOf s f).varargs = false) :
     (exec (n+1) (.prepareCall x nargs)).run s = (.ok (), { s with pc := s.pc + 1 }) := by
   simp only [exec]
-  vmsimp [_hb, hl, hv, ha]
+  vmsimp [_hb, hl, hv]
 
 theorem exec_addFuncScope (n : Nat) (s : St) (t : Nat) :
     (exec (n+1) (.addFuncScope t)).run s =
@@ -206,16 +206,17 @@ theorem exec_prepareCall_varargs_eq (n : Nat) (s : St) (x : String) (nargs sid f
   have h2 : ¬ (fnOf s f).nargs < nargs := by omega
   vmsimp [hb', hl, hv, wrangleOptargs, h1, h2]
 
-/-- fixed parameter list: the operands are left as they are. -/
+/-- fixed parameter list: the operands are left as they are (the generator only emits the
+sequence when their number fits, fix c9a2ccf; `PrepareCall` itself does not look at it). -/
 theorem tail_sequence_fixed (st : CtlState) (fuel : Nat) (s : St) (p : Nat) (x : String) (nargs k sid f : Nat)
     (rest : List Instr) (ext L : List (Option Nat))
     (hat : At s p (tailSeq x nargs k ++ rest))
     (hb : coreBuiltins.contains x = false) (hl : lexLookup s x = some (sid, .fn f))
-    (hv : (fnOf s f).varargs = false) (ha : nargs = (fnOf s f).nargs)
+    (hv : (fnOf s f).varargs = false)
     (hlin : s.linear = ext ++ L) (he : ext.length = k + 1) :
     (runLoop (fuel + 1 + (k + 3)) st).run s = (runLoop (fuel + 1) st).run { s with pc := 0, linear := L } := by
   have := tail_sequence st fuel s p x nargs k rest ext L s.data hat
-    (fun n => by simpa using exec_prepareCall_fixed n s x nargs sid f hb hl hv ha) hlin he
+    (fun n => by simpa using exec_prepareCall_fixed n s x nargs sid f hb hl hv) hlin he
   simpa using this
 
 /-- variadic: the operands beyond the fixed ones are packed; `nargs_fixed + 1` operands remain. -/
